@@ -108,6 +108,48 @@ class SinglePart:
         out, trace = P.run_phase(d, paths["vcf"], [paths["bam"]], reference=paths["ref"], tag=o["tag"],
                                  max_coverage=o["max_coverage"], read_list_filename=rl)
         nt = check_sets(case, out, trace, rl, ctx, None, True, o["tag"])
+        # independent of the trace: when the cap cannot bind, every template (single read, or both mates of a pair) with
+        # at least two fully covered heterozygous variants is used, so the phase sets follow from the generated geometry
+        dec = P.decode_phasing(out)
+        for s in case["samples"]:
+            for contig in case["contigs"]:
+                cname = contig["name"]
+                V = case["variants"][cname]
+                hp = case["haps"][s][cname]
+                het = [vi for vi in range(len(V)) if hp[0][vi] != hp[1][vi]]
+                templates = {}
+                partial = False
+                for r in reads:
+                    if r["sample"] != s or r["chrom"] != cname:
+                        continue
+                    for vi in het:
+                        cl = G.coverage_class(r, V[vi])
+                        if cl == "full":
+                            templates.setdefault(r["name"], set()).add(V[vi]["pos"])
+                        elif cl == "partial":
+                            partial = True
+                lists = [sorted(t) for t in templates.values() if len(t) >= 2]
+                if partial or not lists:
+                    continue
+                span = {}
+                for pl in lists:
+                    for vi in het:
+                        if pl[0] <= V[vi]["pos"] <= pl[-1]:
+                            span[vi] = span.get(vi, 0) + 1
+                if max(span.values()) > o["max_coverage"]:
+                    continue
+                ctx.label("geometry-judged")
+                comp = P.naive_components(lists)
+                got = {pos: v[1] for (c, pos), v in dec.get(s, {}).items() if c == cname}
+                for pos, lead in comp.items():
+                    if pos not in got:
+                        ctx.violation("components:geometry:unphased", "sample %s %s:%d is covered by a used read with >= 2 heterozygous variants but is not phased" % (s, cname, pos + 1))
+                    elif got[pos] != lead + 1:
+                        ctx.violation("components:geometry:phase-set-id", "sample %s %s:%d carries phase set %r, the reads written to the BAM connect it to the component starting at %d" % (
+                            s, cname, pos + 1, got[pos], lead + 1))
+                for pos in got:
+                    if pos not in comp:
+                        ctx.violation("components:geometry:phased-without-read", "sample %s %s:%d is phased but no read with two heterozygous variants covers it" % (s, cname, pos + 1))
         ctx.nontrivial(nt)
         ctx.label("tag-" + o["tag"])
         ctx.label("cap-%d" % o["max_coverage"])
